@@ -179,6 +179,31 @@ def refusal_oracles(case, w, data, aff, dim, pieces, r):
         pass
     except Exception as e:
         fails.append('from_sequence on decreasing positions raised %r instead of ValueError' % e)
+    # any order that is not strictly increasing along the axis must be refused, also when every
+    # input lies ahead of the first one (swap / repeat later inputs)
+    n = len(pieces)
+    seqs = []
+    if n >= 3:
+        for _ in range(3):
+            idx = list(range(n))
+            i, j = sorted(r.sample(range(1, n), 2)) if n > 2 else (1, 1)
+            idx[i], idx[j] = idx[j], idx[i]
+            seqs.append(idx)
+        seqs.append([0, 1, 1] + list(range(2, n)))
+        seqs.append(list(range(n)) + [n - 1])
+        seqs.append([0] + list(range(n - 1, 0, -1)))
+    for idx in seqs:
+        if idx == sorted(set(idx)):
+            continue
+        try:
+            NiftiWrapper.from_sequence([pieces[k] for k in idx], dim)
+            fails.append('from_sequence accepted inputs whose positions along dim %d are in the order %s (not strictly increasing)' % (dim, idx))
+            break
+        except ValueError:
+            pass
+        except Exception as e:
+            fails.append('from_sequence on position order %s raised %r instead of ValueError' % (idx, e))
+            break
     # same position twice
     try:
         NiftiWrapper.from_sequence([pieces[0], pieces[0]], dim)
